@@ -77,6 +77,7 @@ extern bool g_tfo_ok;    // setsockopt(TFO) succeeds
 extern int  g_chunk;     // default TCP read chunk size (0 = everything)
 extern std::vector<int> g_wscript_default;  // write acceptance script given to every new TCP socket
 extern std::vector<int> g_wscript_default_udp;
+extern bool g_v6src_global;
 extern long g_io_events; // number of send/recv calls so far
 extern int  g_nservers;
 void vsock_install(ares_channel_t *ch);
